@@ -143,7 +143,7 @@ impl Check for HistCheck {
             acc.extra.insert(
                 "compact_waiting_behind_a_writer".into(),
                 json!({"what": "two-thread histories: compact() blocks in begin_write() behind a live write transaction whose owner then creates an ephemeral/persistent savepoint and commits/aborts; compact() must refuse (src/c13conc.rs)",
-                    "scenarios_run": n, "compact_returned_within_3s": in_time}),
+                    "scenarios_run": n, "compact_returned_within_20s": in_time}),
             );
             out.extend(fails.into_iter().map(|f| (f, None)));
         }
